@@ -7,6 +7,7 @@
   The heap invariant (DESIGN.md §5.3, clauses 4–5) is not mechanised yet.
 -/
 import CppUtil.Props.McsBits
+import CppUtil.Props.McsProto
 
 namespace CppUtil.Props
 open CppUtil CppUtil.Props.McsBits
@@ -26,5 +27,14 @@ theorem c12_unlockX_recycle_test (old : Word) :
 theorem c12_unlockS_tail_test (cur : Word) (h : sfield cur ≠ 0) :
     (((cur - C.kSLock) &&& (C.kSMask ||| C.kSIXLock)) = 0) ↔ (sfield cur = 1 ∧ sixb cur = false) :=
   unlockS_empty_test cur h
+
+/-- C12, first half, for every reachable state: no step of any request ever reads or writes a queue node
+    that has been freed (the model counts such accesses in `uaf`; the count stays 0).  From the protocol
+    invariant: a node is owned by exactly one of a not-yet-queued request, a thread's cache, a lock's queue,
+    and every node a step touches is owned (hence live). -/
+theorem c12_mcs_no_use_after_free (nlocks nthreads : Nat) (acts : List Mcs.Act)
+    (hr : Mcs.RunOK CppUtil.Props.mcsPb CppUtil.Props.mcsCb CppUtil.Props.mcsParams (Mcs.mkSt nlocks nthreads) acts) :
+    (Mcs.run CppUtil.Props.mcsParams (Mcs.mkSt nlocks nthreads) acts).uaf = 0 :=
+  CppUtil.Props.mcs_no_use_after_free nlocks nthreads acts hr
 
 end CppUtil.Props
